@@ -160,6 +160,9 @@ type scenario struct {
 	Disconnect bool   `json:"disconnect"` // agent drops the session instead of sending the remaining EOFs
 	Park       bool   `json:"park"`
 	V6         bool   `json:"v6"`
+	// SameRemote: the virtual connections share one remote ip:port (a scanner with a fixed source port)
+	// and differ in the local port only
+	SameRemote bool `json:"same_remote,omitempty"`
 	Kind       string `json:"kind"`
 }
 
@@ -207,6 +210,14 @@ func scenarios(tier string, seed int64) []scenario {
 			out = append(out, build(o, [][]msg{seq3(0), seq3(1), seq3(2)}, "interleave-3x3"))
 		}
 	}
+	// the same interleavings with one remote ip:port for both connections (they differ in the local port)
+	for i, o := range interleavings([]int{4, 4}) {
+		if i%2 == 0 || tier == "thorough" {
+			sc := build(o, [][]msg{seq4(0), seq4(1)}, "interleave-2x4-same-remote")
+			sc.SameRemote = true
+			out = append(out, sc)
+		}
+	}
 	n := 200
 	if tier == "thorough" {
 		n = 8000
@@ -243,6 +254,10 @@ func scenarios(tier string, seed int64) []scenario {
 		}
 		sc := build(order, per, fmt.Sprintf("seeded-%dconn", nc))
 		sc.V6 = r.Chance(1, 5)
+		if r.Chance(1, 6) {
+			sc.SameRemote = true
+			sc.Kind += "-same-remote"
+		}
 		// sprinkle control messages that must not disturb anything
 		if r.Chance(1, 3) {
 			extra := []msg{{9, "unknown-data", 10}, {9, "unknown-eof", 0}, {0, "ping", 0}, {8, "udp", r.PickI([]int{0, 5, 500})}}
@@ -319,6 +334,17 @@ func init() {
 			<-g
 		}
 	})
+}
+
+// addrOfSc is addrOf for a scenario: with SameRemote the connections differ in the local port instead of
+// the remote one.
+func addrOfSc(sc scenario, k, c int, udp bool) (local, remote waddr) {
+	l, r := addrOf(k, c, sc.V6, udp)
+	if sc.SameRemote && !udp && c < 70 {
+		l.Port = 8022 + c
+		r.Port = 30000
+	}
+	return l, r
 }
 
 func addrOf(k, c int, v6, udp bool) (local, remote waddr) {
@@ -420,7 +446,7 @@ func runScenario(k int, sc scenario, listen string, key []byte) scnObs {
 	for _, m := range sc.Msgs {
 		switch m.Kind {
 		case "hello", "dup-hello":
-			l, r := addrOf(k, m.Conn, sc.V6, false)
+			l, r := addrOfSc(sc, k, m.Conn, false)
 			a.send(tHello, encAddr(encAddr(nil, l.Proto, l.IP, l.Port), r.Proto, r.IP, r.Port))
 			helloSent[m.Conn] = true
 			if sc.Park {
@@ -431,13 +457,13 @@ func runScenario(k int, sc scenario, listen string, key []byte) scnObs {
 				ob.Parked = atomic.LoadInt64(&parkHits)
 			}
 		case "data":
-			l, r := addrOf(k, m.Conn, sc.V6, false)
+			l, r := addrOfSc(sc, k, m.Conn, false)
 			pl := stampPayload(k, m.Conn, seq[m.Conn], m.Len)
 			seq[m.Conn]++
 			want[m.Conn] = append(want[m.Conn], pl...)
 			a.send(tRWTCP, encData(encAddr(encAddr(nil, l.Proto, l.IP, l.Port), r.Proto, r.IP, r.Port), pl))
 		case "eof":
-			l, r := addrOf(k, m.Conn, sc.V6, false)
+			l, r := addrOfSc(sc, k, m.Conn, false)
 			a.send(tEOF, encAddr(encAddr(nil, l.Proto, l.IP, l.Port), r.Proto, r.IP, r.Port))
 			eofSent[m.Conn] = true
 			if sc.Park {
@@ -445,15 +471,15 @@ func runScenario(k int, sc scenario, listen string, key []byte) scnObs {
 				close(gate)
 			}
 		case "unknown-data":
-			l, r := addrOf(k, 77, sc.V6, false)
+			l, r := addrOfSc(sc, k, 77, false)
 			a.send(tRWTCP, encData(encAddr(encAddr(nil, l.Proto, l.IP, l.Port), r.Proto, r.IP, r.Port), []byte("stray")))
 		case "unknown-eof":
-			l, r := addrOf(k, 78, sc.V6, false)
+			l, r := addrOfSc(sc, k, 78, false)
 			a.send(tEOF, encAddr(encAddr(nil, l.Proto, l.IP, l.Port), r.Proto, r.IP, r.Port))
 		case "ping":
 			a.send(tPing, nil)
 		case "udp":
-			l, r := addrOf(k, m.Conn, sc.V6, true)
+			l, r := addrOfSc(sc, k, m.Conn, true)
 			a.send(tRWUDP, encData(encAddr(encAddr(nil, l.Proto, l.IP, l.Port), r.Proto, r.IP, r.Port), stampPayload(k, 99, 0, m.Len)))
 			if m.Len > 0 { // an empty datagram gives the echoing service nothing to send back
 				ob.UDPSent++
@@ -468,10 +494,10 @@ func runScenario(k int, sc scenario, listen string, key []byte) scnObs {
 			if !helloSent[ci] {
 				continue
 			}
-			_, r := addrOf(k, ci, sc.V6, false)
+			lw, r := addrOfSc(sc, k, ci, false)
 			var call *lab.StubCall
 			for i := range calls {
-				if calls[i].Remote == (&net.TCPAddr{IP: r.IP, Port: r.Port}).String() {
+				if calls[i].Remote == (&net.TCPAddr{IP: r.IP, Port: r.Port}).String() && calls[i].Local == (&net.TCPAddr{IP: lw.IP, Port: lw.Port}).String() {
 					call = &calls[i]
 				}
 			}
@@ -485,7 +511,7 @@ func runScenario(k int, sc scenario, listen string, key []byte) scnObs {
 				return false
 			}
 			bmu.Lock()
-			l, _ := addrOf(k, ci, sc.V6, false)
+			l, _ := addrOfSc(sc, k, ci, false)
 			el := len(bk.data[l.String()+"|"+r.String()])
 			bmu.Unlock()
 			if el < len(call.Data) {
@@ -524,7 +550,7 @@ func runScenario(k int, sc scenario, listen string, key []byte) scnObs {
 	defer bmu.Unlock()
 	known := map[string]bool{}
 	for ci := 0; ci < sc.Conns; ci++ {
-		l, r := addrOf(k, ci, sc.V6, false)
+		l, r := addrOfSc(sc, k, ci, false)
 		key := l.String() + "|" + r.String()
 		known[key] = true
 		co := connObs{Announced: key, WantLen: len(want[ci]), EOFSent: eofSent[ci], GotEOF: bk.eof[key]}
@@ -533,8 +559,9 @@ func runScenario(k int, sc scenario, listen string, key []byte) scnObs {
 			continue
 		}
 		rs := (&net.TCPAddr{IP: r.IP, Port: r.Port}).String()
+		ls := (&net.TCPAddr{IP: l.IP, Port: l.Port}).String()
 		for i := range calls {
-			if calls[i].Remote == rs {
+			if calls[i].Remote == rs && calls[i].Local == ls {
 				co.Calls++
 				co.Local, co.Remote = calls[i].Local, calls[i].Remote
 				co.ReadLen = len(calls[i].Data)
@@ -627,7 +654,7 @@ func (prop) Child(b core.Batch, o *core.Obs) {
 	}
 	port := freePort()
 	listen := fmt.Sprintf("127.0.0.1:%d", port)
-	cfg := fmt.Sprintf("[listener]\ntype=\"agent\"\nlisten=%q\n[channel.cap0]\ntype=\"lab-capture\"\nid=\"cap0\"\n[[filter]]\nchannel=[\"cap0\"]\n[service.echo]\ntype=\"lab-stub-plain\"\nname=\"echo\"\necho=true\n[[port]]\nport=\"tcp/8022\"\nservices=[\"echo\"]\n[[port]]\nport=\"udp/8053\"\nservices=[\"echo\"]\n", listen)
+	cfg := fmt.Sprintf("[listener]\ntype=\"agent\"\nlisten=%q\n[channel.cap0]\ntype=\"lab-capture\"\nid=\"cap0\"\n[[filter]]\nchannel=[\"cap0\"]\n[service.echo]\ntype=\"lab-stub-plain\"\nname=\"echo\"\necho=true\n[[port]]\nports=[\"tcp/8022\",\"tcp/8023\",\"tcp/8024\",\"tcp/8025\"]\nservices=[\"echo\"]\n[[port]]\nport=\"udp/8053\"\nservices=[\"echo\"]\n", listen)
 	srv, err := lab.StartWith(cfg, false)
 	if err != nil {
 		o.Emit(core.Rec{T: "starterr", S: err.Error()})
